@@ -348,6 +348,11 @@ class NeuralStateBase(abc.ABC):
                 samples = samples.unsqueeze(0)
                 bases = np.array(list(bases)).reshape(1, -1)
 
+            bases = np.asarray(bases)
+            if bases.ndim == 1:
+                # one basis string per sample (the documented `list[str]` form)
+                bases = np.array([list(b) for b in bases]).reshape(len(bases), -1)
+
             unique_bases, indices = np.unique(bases, axis=0, return_inverse=True)
             indices = torch.Tensor(indices).to(samples)
 
